@@ -10,6 +10,8 @@ import (
 
 	"go.uber.org/zap"
 
+	"bngverif/internal/vstat"
+
 	"github.com/codelaboratoryltd/bng/pkg/antispoof"
 	bngebpf "github.com/codelaboratoryltd/bng/pkg/ebpf"
 )
@@ -129,17 +131,63 @@ func TestReplayAntispoofEncoding(t *testing.T) {
 }
 
 // TestReplayCircuitIDOver32: a 40-byte circuit-id is declined by the control plane since bf9eea5 (it used to be stored under a
-// truncated key the fast path never derives); a 32-byte one is stored under the key the fast path derives.
+// truncated key the fast path never derives) and the program derives no key for it either, even with the subscriber whose
+// circuit-id is exactly its first 32 bytes cached; a 32-byte one is stored under the key the fast path derives.
 func TestReplayCircuitIDOver32(t *testing.T) {
-	c := engine(t)
-	cidSubs := kernelMap(t, c, "circuit_id_subscribers")
-	defer cidSubs.Close()
-	loader := newLoaderWith(t, map[string]*ebpfMap{"circuit_id_subscribers": cidSubs})
+	e := newCidEnv(t)
+	defer e.close()
 	long := make([]byte, 40)
 	for i := range long {
 		long[i] = byte('a' + i%26)
 	}
-	circuitIDProperty(t, c, loader, cidSubs, circuitIDCase{cid: long, pos: 3, cls: "cid:len>32"})
-	circuitIDProperty(t, c, loader, cidSubs, circuitIDCase{cid: long[:32], pos: 12, cls: "cid:len=32"})
-	circuitIDProperty(t, c, loader, cidSubs, circuitIDCase{cid: long[:5], remote: []byte{1, 2, 3}, pos: 17, cls: "cid:len=3-31"})
+	circuitWireProperty(t, e, wfWire(long, nil, 3))
+	circuitWireProperty(t, e, wfWire(long, []byte{9, 9}, 12))
+	circuitWireProperty(t, e, wfWire(long[:32], nil, 12))
+	circuitWireProperty(t, e, wfWire(long[:5], []byte{1, 2, 3}, 17))
+}
+
+// replayCidFinding runs one fixed options area through the circuit-id property.  While wantSig is listed the case must end
+// at exactly that signature (otherwise the listed finding is STALE); once it is no longer listed the same call fails the check
+// if the defect is (still / again) there and is silent if it is repaired.
+func replayCidFinding(t *testing.T, e *cidEnv, w o82Wire, wantSig string) {
+	t.Helper()
+	for len(w.opts) < 72 {
+		w.opts = append(w.opts, 0)
+	}
+	_, _, got := circuitWireProperty(t, e, w)
+	if vstat.IsListed(wantSig) && got != wantSig {
+		t.Errorf("STALE known finding: options %x no longer produce %s (case ended at %q)", w.opts, wantSig, got)
+	}
+}
+
+// TestReplayCircuitIDMalformedOption82 (KF-C06-32, KF-C06-33): the circuit-id sub-option runs past option 82 / option 82 runs
+// past the packet.  The slow path derives no key for either request, extract_circuit_id_fixed derives one.
+func TestReplayCircuitIDMalformedOption82(t *testing.T) {
+	e := newCidEnv(t)
+	defer e.close()
+	// 53 01 01 | 82 04 01 0a 'a' 'b' | 12 08 "hostname" | 255: sub-option 1 declares 10 bytes, option 82 holds 2
+	sub := append([]byte{53, 1, 1, 82, 4, 1, 10, 'a', 'b', 12, 8}, []byte("hostname")...)
+	sub = append(sub, 255)
+	replayCidFinding(t, e, o82Wire{shape: "sub-overrun", pos: 3, cid: []byte("ab"), declared: 10, opts: sub}, sig(cidSigBase, "suboption-overruns-option82"))
+	// the same behind a client identifier (options offset 12)
+	sub12 := append([]byte{53, 1, 1, 61, 7, 1, 2, 0, 0, 0, 0, 1, 82, 4, 1, 10, 'a', 'b', 12, 8}, []byte("hostname")...)
+	sub12 = append(sub12, 255)
+	replayCidFinding(t, e, o82Wire{shape: "sub-overrun", pos: 12, cid: []byte("ab"), declared: 10, opts: sub12}, sig(cidSigBase, "suboption-overruns-option82"))
+	// 53 01 01 | 61 07 01 <mac> | 82 f0 01 04 "olt1" and the packet ends after 72 bytes of options: option 82 declares 240 bytes
+	over := append([]byte{53, 1, 1, 61, 7, 1, 2, 0, 0, 0, 0, 1, 82, 0xf0, 1, 4}, []byte("olt1")...)
+	replayCidFinding(t, e, o82Wire{shape: "opt-overrun", pos: 12, cid: []byte("olt1"), declared: 4, opts: over}, sig(cidSigBase, "unparseable-options"))
+}
+
+// TestReplayCircuitIDPatternInPayload (KF-C06-34): no option 82 at all; the host name "aaaaaaaR\x06\x01\x04olt1" puts the bytes
+// 52 06 01 04 'o' 'l' 't' '1' at options offset 12.  The program looks the request up under the circuit-id key "olt1".
+func TestReplayCircuitIDPatternInPayload(t *testing.T) {
+	e := newCidEnv(t)
+	defer e.close()
+	host := append([]byte("aaaaaaaR"), 6, 1, 4, 'o', 'l', 't', '1')
+	opts := append([]byte{53, 1, 1, 12, byte(len(host))}, host...)
+	opts = append(opts, 255)
+	replayCidFinding(t, e, o82Wire{shape: "pseudo", pos: 12, cid: []byte("olt1"), declared: 4, opts: opts}, sig(cidSigBase, "option82-pattern-in-option-payload"))
+	// the relay's genuine option 82 ("port7") behind it, beyond the scanned offsets: two different keys for one request
+	opts = append(opts[:len(opts)-1], 82, 7, 1, 5, 'p', 'o', 'r', 't', '7', 255)
+	replayCidFinding(t, e, o82Wire{shape: "pseudo", pos: 12, cid: []byte("olt1"), declared: 4, decoy: []byte("port7"), opts: opts}, sig(cidSigBase, "option82-pattern-in-option-payload"))
 }
